@@ -52,6 +52,7 @@ PathStep ==
       loose == \/ PClass(p) \in {"strrt", "string"} /\ st.lutmixed
                \/ PClass(p) \in {"deepcopy", "unitdeep"} /\ ~Atomic(obj.unit)
                \/ st.lutmixed /\ ~Atomic(obj.unit)
+               \/ PClass(p) = "copy" /\ ~Atomic(obj.unit)
       tok == IF s.k = "ok"
              THEN /\ model.alive /\ model.cls = s.cls /\ model.usys = s.usys
                   /\ loose \/ (model.ident = s.ident /\ model.dimshared = s.dimshared)
@@ -86,7 +87,10 @@ FollowStep ==
   \* not transcribed: x*x on a restored LOGARITHMIC array goes through _multiply_units -> simplify -> _cancel_mul, which rebuilds
   \* the factors with sympy operations; sympy's process-wide cache hands back whichever of the equal dimension symbols
   \* (singleton or copy) it saw first, so whether the guard fires depends on what ran before
-  /\ (~(f = "mul_self" /\ UnitRow(obj.unit).dim = "logarithmic") /\ ~(RestSame(f, obj, st, order) = rs /\ OrigSame(f, obj, st, order) = os))
+  \* (also not transcribed: list_same_dimensions of an angle unit in a registry that got the removed rad back - the list is
+  \* built by identity and by presence at once)
+  /\ (~(f = "mul_self" /\ UnitRow(obj.unit).dim = "logarithmic") /\ ~(f = "list_same" /\ obj.reg = "customrm" /\ UnitRow(obj.unit).dim = "angle")
+        /\ ~(RestSame(f, obj, st, order) = rs /\ OrigSame(f, obj, st, order) = os))
        => PrintT(ToJson([tag |-> "T-FAIL", tid |-> tid, l |-> l, op |-> "follow:" \o f,
                          model |-> [rest |-> RestSame(f, obj, st, order), orig |-> OrigSame(f, obj, st, order)], observed |-> [rest |-> rs, orig |-> os]]))
   /\ (f \notin NotDemanded /\ ~rs) => PFail("follow_rest", "", f, part(fo.rest))
